@@ -3,3 +3,4 @@ import Mkdb.Generated.Consts
 import Mkdb.Generated.Tokens
 import Mkdb.Props.C15
 import Mkdb.Props.C12
+import Mkdb.Props.C08
